@@ -92,9 +92,35 @@ def immutable_reprs(facts) -> set:
     return out
 
 
+def owner_of(p: Program, fn: str) -> str:
+    """A private helper (leading underscore, not a dunder) with a single static caller is part of that caller:
+    construct keys name the owning function, so extracting a few statements into a helper does not rename a finding."""
+    cm = getattr(p, "_callers_short", None)
+    if cm is None:
+        cm = {}
+        for f_ in p.iter_functions():
+            if f_.is_lambda:
+                continue
+            for _node, g_ in static_callees(p, f_):
+                cm.setdefault(short_name(g_), set()).add(short_name(f_))
+        p._callers_short = cm
+    seen = set()
+    while fn not in seen:
+        seen.add(fn)
+        last = fn.split(".")[-1]
+        if not last.startswith("_") or last.startswith("__"):
+            break
+        cs = cm.get(fn, set()) - {fn}
+        if len(cs) != 1:
+            break
+        fn = next(iter(cs))
+    return fn
+
+
 def wkey(p: Program, rule: str, ev, extra: str = "") -> str:
     """Construct-level key of a write event: rule | target provenance | sink function | sink statement | via."""
     fn, stmt = p.stmt_at(ev[-1])
+    fn = owner_of(p, fn)
     via = ev[8] if len(ev) > 9 else ""
     frames = [f for f in via.split(">") if f and "Method." not in f]
     return f"{rule}|{'+'.join(ev[3])}|{fn}|{stmt}|via:{'>'.join(frames[-12:])}{extra}"
